@@ -10,7 +10,7 @@ IMPORTS = ("From GfaV Require Import Base.Py Model.Codec Model.Graph Model.Linea
 ASSUMPTIONS = GC.ASSUMPTIONS + ["GFA1 graphs", "overlaps of chain links are match-only or unspecified", "no hairpin on a chain end (F18)",
                                 "LN tags agree with the sequences", "segment names contain no underscore"]
 LEVEL_TEXT = ("Theorems in coq/Props/C14.v over Model/Linear.v (chain detection and merged-segment construction on the reference "
-              "semantics of the graph; complement table regenerated from gfapy.sequence.WCC): what a traversal returns is a chain of "
+              "semantics of the graph; complement table regenerated from gfapy.sequence.WCC and proved equal to an independently stated IUPAC table): what a traversal returns is a chain of "
               "segment ends joined by dovetails that are the only dovetail on both joined ends; its members were unassigned before, "
               "pairwise different and assigned afterwards; the path of a segment is two such chains glued at the segment; the merged "
               "segment is named after the members in order and its LN is the length of its sequence; reverse complement keeps the "
